@@ -171,7 +171,8 @@ RejectedPositions(kinds, e) == IF Rejecting(e) /\ FirstLit(kinds) # 0 THEN {Firs
 (*         answer writes through                                           *)
 (***************************************************************************)
 Recvs == {"ref", "mut", "own", "rc", "arc", "pin"}
-ParamKinds == {"u8", "string", "ru8", "str", "mu8", "mvec", "slice", "vec", "gen", "optstr", "pair", "rru8", "into"}
+\* "mlvec": `&'a mut Vec<u8>` with a named lifetime on the reference (still a plain mutable borrow: the matcher sees it)
+ParamKinds == {"u8", "string", "ru8", "str", "mu8", "mvec", "mlvec", "slice", "vec", "gen", "optstr", "pair", "rru8", "into"}
 AnswerView(k, i) ==
   CASE k = "u8"     -> ToString(i)
     [] k = "string" -> "s" \o ToString(i)
@@ -179,7 +180,7 @@ AnswerView(k, i) ==
     [] k = "rru8"   -> "&&" \o ToString(i)
     [] k = "str"    -> "&s" \o ToString(i)
     [] k = "mu8"    -> "&mut " \o ToString(i)
-    [] k = "mvec"   -> "&mut [" \o ToString(i) \o "]"
+    [] k \in {"mvec", "mlvec"} -> "&mut [" \o ToString(i) \o "]"
     [] k = "slice"  -> "&[" \o ToString(i) \o "," \o ToString(i + 1) \o "]"
     [] k = "vec"    -> "[" \o ToString(i) \o "," \o ToString(i + 1) \o "]"
     [] k = "gen"    -> ToString(i)
@@ -189,7 +190,7 @@ AnswerView(k, i) ==
 \* the matcher receives a reference to the argument tuple; the rendering used by the generated
 \* programs (Show::show through method auto-deref) shows the referent, i.e. the argument itself
 MatcherView(k, i) == AnswerView(k, i)
-Writes(k) == k \in {"mu8", "mvec"}
+Writes(k) == k \in {"mu8", "mvec", "mlvec"}
 After(k, i) == IF k = "mu8" THEN ToString(i + 100) ELSE "[" \o ToString(i) \o "," \o ToString(i + 100) \o "]"
 RetKinds == {"u32", "string", "opt", "ref"}
 RetView(r) == CASE r = "u32" -> "4242" [] r = "string" -> "ret" [] r = "opt" -> "Some(7)" [] OTHER -> "&77"
@@ -202,6 +203,7 @@ ValidShape(sh) ==
   /\ (sh.api = "hidden" => sh.recv = "ref" /\ sh.ret # "ref" /\ \A i \in 1..Len(sh.params) : sh.params[i] \notin {"gen", "into"})
   /\ (sh.async # "none" => \A i \in 1..Len(sh.params) : sh.params[i] \notin {"into"})
   /\ Cardinality({ i \in 1..Len(sh.params) : sh.params[i] \in {"gen", "into"} }) <= 1
+  /\ ((\E i \in 1..Len(sh.params) : sh.params[i] = "mlvec") => sh.async = "none" /\ sh.api # "hidden")
 Forward(sh) ==
   [matcher |-> [i \in 1..Len(sh.params) |-> MatcherView(sh.params[i], i)],
    answer  |-> [i \in 1..Len(sh.params) |-> AnswerView(sh.params[i], i)],
@@ -210,7 +212,7 @@ Forward(sh) ==
 
 (***************************************************************************)
 (* C16: unmock_with.  A trait with n methods of one signature              *)
-(* (recv, a: u8, b: &str) -> u32, an optional provided associated function *)
+(* (recv, a: u8, b: u8) -> u32 (same types, so that a permuted or ignored parameter list still compiles), an optional provided associated function *)
 (* without receiver declared first (it is not mockable but still occupies  *)
 (* a slot of the list), and per method an entry of the list:               *)
 (*    "none"  `_`            no real function                              *)
@@ -219,17 +221,20 @@ Forward(sh) ==
 (* The call under test targets method `target`, in a partial mock (fall    *)
 (* through) or in a strict mock with an applies_unmocked() clause.         *)
 (***************************************************************************)
-EntryKinds == {"none", "path", "expl"}
+\*    "expls" `realy_i(self, b, a)` explicit list that names the receiver first and permutes the rest
+EntryKinds == {"none", "path", "expl", "expls"}
 UnmockExpected(sh) ==
   LET e == sh.entries[sh.target] IN
   CASE e = "none" -> [k |-> "panic", class |-> "CannotUnmock", who |-> "", args |-> <<>>, ret |-> 0]
-    [] e = "path" -> [k |-> "ret", class |-> "", who |-> "real_" \o ToString(sh.target), args |-> <<"5", "&s">>, ret |-> 1000 + sh.target]
-    [] OTHER      -> [k |-> "ret", class |-> "", who |-> "realx_" \o ToString(sh.target), args |-> <<"&s", "5">>, ret |-> 2000 + sh.target]
+    [] e = "path" -> [k |-> "ret", class |-> "", who |-> "real_" \o ToString(sh.target), args |-> <<"5", "9">>, ret |-> 1000 + sh.target]
+    [] e = "expls" -> [k |-> "ret", class |-> "", who |-> "realy_" \o ToString(sh.target), args |-> <<"9", "5">>, ret |-> 3000 + sh.target]
+    [] OTHER      -> [k |-> "ret", class |-> "", who |-> "realx_" \o ToString(sh.target), args |-> <<"9", "5">>, ret |-> 2000 + sh.target]
 UnmockShapes(NM, Rs) ==
   { sh \in [recv : Rs, n : NM, target : 1..3, entries : UNION { [1..k -> EntryKinds] : k \in NM }, skipped : BOOLEAN,
             async : BOOLEAN, mode : {"partial", "clause"}, nested : BOOLEAN] :
       /\ Len(sh.entries) = sh.n /\ sh.target <= sh.n
       /\ (sh.nested => sh.entries[sh.target] = "path")
+      /\ ((\E i \in 1..Len(sh.entries) : sh.entries[i] = "expls") => sh.recv \in {"ref", "own"})
       /\ (sh.async => sh.recv \in {"ref", "own"}) }
 
 (***************************************************************************)
